@@ -6,6 +6,8 @@ exactness theorems hold with the hypothesis "no ghost note" restricted to the no
 import OpenFGAVerif.Proofs.ListUsersFga
 import OpenFGAVerif.Proofs.ListUsersStrat
 
+set_option linter.unusedSectionVars false
+
 namespace OpenFGAVerif.ListUsers
 open OpenFGAVerif.Vocab OpenFGAVerif.CheckV1 OpenFGAVerif.BoolSys
 
